@@ -175,6 +175,30 @@ for i in range(30 * SCALE):
         fail("reference-writer", "reference rendering of the same response loads differently", xml)
     emitted.append((xml, resp, nb))
 
+# ------------------------------------------------------------------ 2a. the file the tool writes: exactly the document, whatever was at the path before
+from kskm.signer import output_skr_xml
+from kskm.skr.load import load_skr
+for xml, resp, nb in emitted[: (8 if TIER == "quick" else 60)]:
+    for before in (None, b"", b"<old/>\n", xml.encode() + b"<!-- tail of a longer, earlier file -->\n" * 3, b"\xff" * (len(xml.encode()) + R.randrange(1, 4000))):
+        path = os.path.join(tmpd, "written.xml")
+        if os.path.exists(path):
+            os.unlink(path)
+        if before is not None:
+            with open(path, "wb") as f:
+                f.write(before)
+        w = vlib.run_impl(output_skr_xml, resp, path)
+        count("written-file")
+        got = open(path, "rb").read() if os.path.exists(path) else None
+        if w[0] != "ok":
+            fail("write", f"output_skr_xml raised {w[2]}", xml)
+        elif got != xml.encode():
+            fail("write", f"the file written over {'nothing' if before is None else str(len(before)) + ' earlier octets'} holds {len(got or b'')} octets, the SKR document has {len(xml.encode())}"
+                          + ("; the document is followed by remains of the earlier file" if got and got.startswith(xml.encode()) else ""), xml, {"before_len": None if before is None else len(before)})
+        else:
+            lf = vlib.run_impl(load_skr, path, ResponsePolicy(num_bundles=nb))
+            if lf[0] != "ok" or lf[1] != resp:
+                fail("write", f"the written file does not load back to the same response ({lf[2] if lf[0] != 'ok' else 'differs'})", xml)
+
 # ------------------------------------------------------------------ 2b. document level: the writer's element structure and the loader vs Model.SkrDoc
 from kgen import coq_response, handle
 
